@@ -661,6 +661,16 @@ def gen_seg(rng: random.Random, res: Result | None, intensify: bool = False, mal
                 seg[(t,) + p] = lab
             cur_pixels += px
         prev_pixels = cur_pixels
+    if rng.random() < 0.12:
+        # no background in the populated frames: the remaining pixels go to the frame's detections (a
+        # detection that is alone in its frame fills it; several tile it)
+        for t in range(T):
+            labs = sorted(set(int(v) for v in seg[t].reshape(-1)) - {0})
+            if labs:
+                flat = seg[t].reshape(-1)
+                for i in range(flat.size):
+                    if flat[i] == 0:
+                        flat[i] = rng.choice(labs)
     if malformed:
         frames = [t for t in range(T) if seg[t].any()]
         if len(frames) >= 2:
